@@ -267,6 +267,33 @@ func (w *World) checkC49() {
 					// a long critical section: the holder (certmagic does this for long issuances) also asks for
 					// the lease to be renewed explicitly, while the storage's own renewal loop keeps running
 					crit := time.Duration(r.Intn(6000)) * time.Millisecond
+					// another goroutine of the same process wants the same lock and loses patience: whatever its call
+					// does, the holder keeps the lock
+					waiterDone := make(chan struct{})
+					if r.Chance(0.4) {
+						patience := time.Duration(100+r.Intn(1500)) * time.Millisecond
+						simrt.GoGroup("h:impatient-waiter", "", func() {
+							defer close(waiterDone)
+							ctx2, cancel2 := context.WithTimeout(w.ctx, patience)
+							defer cancel2()
+							simrt.Probe("same-instance-waiter")
+							if err := s.Lock(ctx2, "issue/shared"); err == nil {
+								h2 := hold{inst: i, got: simrt.Stamp(), release: 1 << 62}
+								mu.Lock()
+								holds = append(holds, h2)
+								h2i := len(holds) - 1
+								mu.Unlock()
+								simrt.Sleep(time.Duration(r.Intn(300))*time.Millisecond, "h:waiter-critical-section")
+								mu.Lock()
+								holds[h2i].release = simrt.Stamp()
+								mu.Unlock()
+								s.Unlock(w.ctx, "issue/shared")
+							}
+						})
+					} else {
+						close(waiterDone)
+					}
+					defer func() { <-waiterDone }()
 					if r.Chance(0.5) {
 						stop := make(chan struct{})
 						renewed := make(chan struct{})
